@@ -199,6 +199,8 @@ def set (l : DList) (i : Nat) (x : Node) : DList := listSet l i x
 def addValue (c : Container) (name : String) (v : Node) : Container := Ytk.add c name v
 /-- `c.Remove(name)` -/
 def remove (c : Container) (name : String) : Container := Ytk.remove c name
+/-- `l.items[i] = x` (Go slice element assignment on the builder's own slice): panics unless i < len -/
+def setItemAt (l : DList) (i : Nat) (x : Node) : Go.Res DList := if i < l.length then .ok (l.set i x) else .panic
 /-- `dom.LeafNode(v)` -/
 def leafNode (v : Any) : Node := .leaf v
 
